@@ -228,14 +228,12 @@ def unfocus_fixed_sampling_backprop(wavefunction, input_dx, prop_dist,
     if not isinstance(output_samples, Iterable):
         output_samples = (output_samples, output_samples)
 
-    dias = [output_dx * s for s in output_samples]
-    dia = max(dias)
-    Q = Q_for_sampling(input_diameter=dia,
-                       prop_dist=prop_dist,
-                       wavelength=wavelength,
-                       output_dx=input_dx)  # not a typo
-
-    Q /= wavefunction.shape[0] / output_samples[0]
+    # output_samples is the shape of the forward routine's input (the focal plane array), and
+    # input_dx / output_dx are the forward's: the adjoint must use the forward's per-axis Q
+    Q = tuple(Q_for_sampling(input_diameter=s * input_dx,
+                             prop_dist=prop_dist,
+                             wavelength=wavelength,
+                             output_dx=output_dx) for s in output_samples)
 
     if shift[0] != 0 or shift[1] != 0:
         shift = (shift[0]/output_dx, shift[1]/output_dx)
